@@ -565,7 +565,7 @@ def treatAs (tb : Tables) (xsd11 : Bool) (t : Ty) (v : List Item) : Except Err (
 
 `(function(A) as R)*` — XPath 3.0 ParenthesizedItemType — is the only way to give a typed function test an occurrence
 indicator (without the parentheses the indicator belongs to `R`).  The AST has no such type: texts cannot hold it
-(see finding F18w).  At the top level of `instance of` / `treat as` the parser (fix-c18-6) puts the indicator on the
+(see finding F18w).  At the top level of `instance of` / `treat as` the parser puts the indicator on the
 function-test token, and the evaluators run the same loops with it. -/
 
 def instanceOfOwnOcc (tb : Tables) (xsd11 : Bool) (o : Occ) (a : Tys) (r : Ty) (v : List Item) : Res :=
@@ -915,26 +915,6 @@ def splitScan : Nat → List Tok → List Tok → List (List Tok) × List Tok
 /-- `split_function_test(st)` for the text of a typed function test: parameter texts and return type text -/
 def pySplit (st : List Tok) : List (List Tok) × List Tok := splitScan 0 st.tail []
 
-/-! the splitting of the pinned tree before `fix-c18-6` (`st[9:].partition(') as ')`, then `.split(', ')` of the
-first part), kept to state exactly where it differs from `pySplit` -/
-
-/-- `s.partition(') as ')` -/
-def partitionCloseAs : List Tok → List Tok × List Tok
-  | [] => ([], [])
-  | .closeAs :: r => ([], r)
-  | t :: r => (t :: (partitionCloseAs r).1, (partitionCloseAs r).2)
-
-/-- `s.split(', ')` -/
-def splitComma : List Tok → List (List Tok)
-  | [] => [[]]
-  | .comma :: r => [] :: splitComma r
-  | t :: r => match splitComma r with
-    | p :: ps => (t :: p) :: ps
-    | [] => [[t]]
-
-def pySplitOld (st : List Tok) : List (List Tok) × List Tok :=
-  (splitComma (partitionCloseAs st.tail).1, (partitionCloseAs st.tail).2)
-
 /-- what the AST says the pieces are -/
 def Tys.argTexts (nm ln : Nat → String) : Tys → List (List Tok)
   | .nil => []
@@ -966,16 +946,6 @@ def Ty.flat : Ty → Bool
   | .func a r => a.allSimple && r.flat
   | .map _ v _ => v.flat
   | .array m _ => m.flat
-
-/-- like `flat`, and no typed function test without parameters (`''.split(', ')` is `['']`, one empty piece): where
-the splitting before fix-c18-6 (`pySplitOld`) returns the pieces of the AST.  Its negation is the trigger of finding
-F18p for `is_sequence_type_restriction` / `split_function_test` on a tree without that fix. -/
-def Ty.oldSplitOK : Ty → Bool
-  | .empty => true
-  | .leaf _ _ => true
-  | .func a r => !a.isNil && a.allSimple && r.oldSplitOK
-  | .map _ v _ => v.oldSplitOK
-  | .array m _ => m.oldSplitOK
 
 /-- every argument of the (top-level) typed function test is `simple` or is itself a typed function test with
 `simple` arguments and a `simple` return type: the shape of the higher-order functions of the library -/
@@ -1056,38 +1026,6 @@ def hasMapArray : List Item → Bool
 
 def Leaf.isKindTest : Leaf → Bool
   | .kind _ _ => true | .kindT _ _ _ _ => true | .docElem _ => true | _ => false
-
-/-- the text contains `function(` -/
-def Ty.mentionsFunc : Ty → Bool
-  | .empty => false
-  | .leaf l _ => l == .funcAny
-  | .func _ _ => true
-  | .map _ v _ => v.mentionsFunc
-  | .array m _ => m.mentionsFunc
-
-def Tys.anyMentionsFunc : Tys → Bool
-  | .nil => false
-  | .cons a as => a.mentionsFunc || as.anyMentionsFunc
-
-mutual
-/-- trigger of F18p: legal sequence types that the 3.1 parser still rejects with XPST0003 (found by enumerating
-1 060 nestings, see docs/C18.md; `infunc` = the type occurs inside a typed function test): a typed function test nested in a typed function
-test whose arguments mention `function(` (is_sequence_type validates that only in the last argument), and a kind
-test with a type argument inside a typed function test (is_sequence_type splits the argument list at every ', ').
-Over-approximates (it only tags a disagreement of `instance of` / `treat as` / a parameter declaration). -/
-def Ty.gapAt (infunc : Bool) : Ty → Bool
-  | .empty => false
-  | .leaf (.kindT _ _ _ _) _ => infunc     -- its text contains ', ': is_sequence_type cuts the argument list there
-  | .leaf _ _ => false
-  | .func a r => (infunc && a.anyMentionsFunc) || a.gapAll || r.gapAt true
-  | .map _ v _ => v.gapAt infunc
-  | .array m _ => m.gapAt infunc
-def Tys.gapAll : Tys → Bool
-  | .nil => false
-  | .cons a as => a.gapAt true || as.gapAll
-end
-
-def Ty.parserGap (t : Ty) : Bool := t.gapAt false
 
 /-- documents have at most one element child (XDM documents built from well-formed XML have exactly one) -/
 def docsWellFormed : List Item → Bool
